@@ -1581,6 +1581,12 @@ impl fmt::Display for Type2<'_> {
           let _ = write!(t2_str, ".{}", tag_constraint);
         }
 
+        // `#6.n` without content is parsed with an empty type; it has no
+        // parentheses to print
+        if t.type_choices.is_empty() {
+          return write!(f, "{}", t2_str);
+        }
+
         t2_str.push('(');
 
         #[cfg(feature = "ast-comments")]
